@@ -69,7 +69,18 @@ def denotes(node, evaluate):
     """The type a deferred node stands for."""
     t = node.type
     if isinstance(t, typing.ForwardRef):
-        return evaluate(t)
+        try:
+            return evaluate(t)
+        except NameError:
+            # a NewType / alias defined inside a function is not bound under its own name in its module: find the object that
+            # carries this name among the module's attributes (the wrapper was handed out under another name)
+            import sys
+
+            mod = sys.modules.get(t.__forward_module__ or "")
+            for obj in list(vars(mod).values()) if mod is not None else ():
+                if getattr(obj, "__name__", None) == t.__forward_arg__ and (hasattr(obj, "__supertype__") or isinstance(obj, typing.TypeAliasType)):
+                    return obj
+            raise
     return t
 
 
@@ -113,6 +124,12 @@ def check_sequence(root, nodes, evaluate):
         try:
             d = denotes(n, evaluate)
         except Exception as e:  # noqa: BLE001
+            # a NewType / alias defined inside a function cannot be looked up by name in its module; the reference then stands for the
+            # full node of that name (a revisit by name)
+            byname = [f for _, f in fulls if isinstance(n.type, typing.ForwardRef) and getattr(f.type, "__name__", None) == n.type.__forward_arg__
+                      and (hasattr(f.type, "__supertype__") or isinstance(f.type, typing.TypeAliasType))]
+            if byname:
+                continue
             v.append(("deferred-does-not-evaluate", f"{n!r}: {type(e).__name__}: {e}"[:300]))
             continue
         # a revisit: the denoted type is also present as a full node
@@ -137,6 +154,10 @@ def check_sequence(root, nodes, evaluate):
                     try:
                         d = denotes(c, evaluate)
                     except Exception:  # noqa: BLE001
+                        if isinstance(c.type, typing.ForwardRef) and getattr(m, "__name__", None) == c.type.__forward_arg__ and (
+                                hasattr(m, "__supertype__") or isinstance(m, typing.TypeAliasType)):
+                            ok = True
+                            break
                         continue
                     if teq(d, m) or (teq(peel(d), peel(m)) and not is_param_loss(d, m)):
                         ok = True
